@@ -14,6 +14,13 @@ IsSync == R.kind = "sync"
 Relaxed(h) == H[h].durafter # R.masterdur
 \* after every completed sync at most one registered replica runs relaxed
 C19_AtMostOne == (IsSync /\ R.completed) => Cardinality({h \in Names : H[h].regafter /\ Relaxed(h)}) <= 1
+\* ... and NO sync - completed or not - leaves more registered replicas relaxed than it found, beyond one (a sync that
+\* fails to restore one host must not go on and relax another)
+RelaxedBefore(h) == H[h].durbefore # R.masterdur
+C19_NeverMoreRelaxed ==
+    IsSync => LET before == Cardinality({h \in Names : ~H[h].ismaster /\ H[h].regbefore /\ RelaxedBefore(h)})
+                  after  == Cardinality({h \in Names : ~H[h].ismaster /\ H[h].regafter /\ Relaxed(h)})
+              IN after <= (IF before > 1 THEN before ELSE 1)
 \* a registered cluster host is dropped only after its settings were restored
 C19_RestoreThenDrop == IsSync => \A k \in DOMAIN R.drops : R.drops[k].clusterhost => R.drops[k].restored
 \* replicas without a known lag and converged replicas are restored and dropped by a completed sync
